@@ -2993,7 +2993,7 @@ func (pc *PeerConnection) generateUnmatchedSDP(
 
 		if pc.configuration.AlwaysNegotiateDataChannels || pc.sctpTransport.dataChannelsRequested != 0 {
 			mediaSections = append(mediaSections, mediaSection{
-				id:       strconv.Itoa(len(mediaSections)),
+				id:       dataMediaSectionMid(mediaSections),
 				data:     true,
 				sctpInit: localSctpInit,
 			})
@@ -3177,7 +3177,7 @@ func (pc *PeerConnection) generateMatchedSDP(
 					localSctpInit = pc.sctpTransport.GetSctpInit()
 				}
 				mediaSections = append(mediaSections, mediaSection{
-					id:       strconv.Itoa(len(mediaSections)),
+					id:       dataMediaSectionMid(mediaSections),
 					data:     true,
 					sctpInit: localSctpInit,
 				})
